@@ -3,6 +3,7 @@
 #   build/vmc   plain build: /repo through a replace directive, nothing injected
 #   build/vmcx  overlay build (tag verif): adds zz_verif_export.go and the verifsync shim package to
 #               package utreexo and swaps mappollard.go's "sync" import for the shim (C12, C16)
+#   build/vmcxrace  vmcx built with -race (C12's separate free-running race pass)
 set -eu
 cd /verif/vmc
 export GOFLAGS=-mod=mod GOPROXY=off GOSUMDB=off GOTOOLCHAIN=local
@@ -26,4 +27,10 @@ if [ "$what" = all ] || [ "$what" = vmcx ]; then
 }}
 JSON
   go build -tags verif -overlay $gen/overlay.json -o /verif/build/vmcx ./cmd/vmc
+fi
+if [ "$what" = all ] || [ "$what" = vmcxrace ]; then
+  # the same overlay build with the race detector, for C12's free-running pass
+  gen=/verif/vmc/overlay/gen
+  [ -f $gen/overlay.json ] || "$0" vmcx
+  go build -race -tags verif -overlay $gen/overlay.json -o /verif/build/vmcxrace ./cmd/vmc
 fi
